@@ -69,7 +69,9 @@ func (t *c01Transport) RoundTrip(r *http.Request) (*http.Response, error) {
 	if hdr == nil {
 		hdr = w.Hdr
 	}
-	return &http.Response{StatusCode: status, Header: hdr, Body: verif.Body(w.Body)}, nil
+	// ContentLength -1: the length is not announced (chunked / close-delimited bodies), which
+	// net/http documents as always possible for a response
+	return &http.Response{StatusCode: status, Header: hdr, Body: verif.Body(w.Body), ContentLength: -1}, nil
 }
 
 func c01SameThing(a, b *Thing) bool {
